@@ -186,9 +186,11 @@ func (uconn *UConn) uLoadSession() error {
 				// without a session ticket extension the resumption was skipped
 				uconn.sessionController.setSessionTicketToUConn()
 			}
-		} else {
+		} else if session.version == VersionTLS13 {
 			uconn.sessionController.initPskExt(session, earlySecret, binderKey, hello.pskIdentities)
 		}
+		// A TLS 1.0 or 1.1 session is neither a TLS 1.2 ticket session nor a pre-shared
+		// key: it is not offered.
 	}
 
 	return nil
